@@ -498,6 +498,24 @@ func CFG(tier string, f func(Case)) {
 		a := &ir.Mod{Name: "a", Body: []*ir.S{ir.Cont("c", ir.N("choice", "ch", ir.N("case", "ca", ir.Cont("cc", ir.Leaf("x", "string").WithCfg(x[3])).WithCfg(x[2])), ir.Leaf("sh", "string").WithCfg(x[4])).WithCfg(x[1])).WithCfg(x[0])}}
 		mk(fmt.Sprintf("choice %v", x), a)
 	}
+	// 4b. explicit cases that hold a child of their own name (as an implied case does) next to other
+	// nodes: the child's config is the child's; written in place, and brought in by an augment
+	for c := 0; c < 81; c++ {
+		x := []string{tri[c%3], tri[c/3%3], tri[c/9%3], tri[c/27%3]}
+		for _, byAug := range []bool{false, true} {
+			same := ir.Cont("k", ir.Leaf("in", "string")).WithCfg(x[2])
+			caseK := ir.N("case", "k", ir.Leaf("beside", "string"), ir.Cont("besidec", ir.Leaf("deep", "string")))
+			a := &ir.Mod{Name: "a"}
+			b := &ir.Mod{Name: "b", Imports: []string{"a"}}
+			if byAug {
+				b.Body = append(b.Body, ir.Aug("/a:c/a:ch/a:k", same))
+			} else {
+				caseK.Kids = append([]*ir.S{same}, caseK.Kids...)
+			}
+			a.Body = []*ir.S{ir.Cont("c", ir.N("choice", "ch", caseK, ir.N("case", "m", ir.Leaf("m", "string").WithCfg(x[3]), ir.Leaf("other", "string"))).WithCfg(x[1])).WithCfg(x[0])}
+			mk(fmt.Sprintf("case-with-child-of-its-name aug=%v %v", byAug, x), a, b)
+		}
+	}
 	// 5. rpc / action / notification (no explicit config inside), under configured ancestors
 	for c := 0; c < 9; c++ {
 		x := []string{tri[c%3], tri[c/3%3]}
